@@ -11,7 +11,7 @@ import (
 func init() {
 	Explanations["C03"] = "Decides structural necessary conditions of 'every durable commit point reopens to a consistent chain' (ordering and ownership of the durability point): (R1) the database's Flush is invoked only by DBStore.Flush and the caching wrapper; DBStore.Flush (or a wrapper method around it) is invoked only from DBStore.ApplyBlock/RevertBlock, store constructors and the migration they call; Store.Flush only by the tip walker; (R2) in DBStore.ApplyBlock/RevertBlock no bucket write is reachable after a flush point, so a commit only ever happens at a block boundary; (R3) in the Manager's apply step the state and block(+supplement) of the block are stored before Store.ApplyBlock on every path and no store write follows it; likewise nothing follows Store.RevertBlock; (R4) the functions that write the Height key also write/delete the best-index entry of that height and contain no flush point; (R5) every success return of the tip walker passes Store.Flush; (R6) the reopening constructor derives the tip it returns only from Height → BestIndex → State; (R7) BoltChainDB commit/rollback discipline is decided under C17.R3. NOT decided: that a reopened image equals an earlier tip, catch-up equality, bbolt's own atomicity, migration (treated as initialisation)."
 
-	register(&Rule{ID: "C03.R1", Prop: "C03", Floor: 8, Doc: "who may flush: the durability point is owned by the block-boundary functions", Run: c03r1})
+	register(&Rule{ID: "C03.R1", Prop: "C03", Floor: 5, Doc: "who may flush: the durability point is owned by the block-boundary functions", Run: c03r1})
 	register(&Rule{ID: "C03.R2", Prop: "C03", Floor: 2, Doc: "flush last: no bucket write after a flush point inside DBStore.ApplyBlock/RevertBlock", Run: c03r2})
 	register(&Rule{ID: "C03.R3", Prop: "C03", Floor: 3, Doc: "one window per block: state and block stored before Store.ApplyBlock, nothing after; nothing after Store.RevertBlock", Run: c03r3})
 	register(&Rule{ID: "C03.R4", Prop: "C03", Floor: 2, Doc: "Height and best-index entry are written together without a flush between", Run: c03r4})
@@ -23,6 +23,7 @@ type storeRoles struct {
 	p             *ir.Prog
 	dbFlush       *types.Func // chain.DB.Flush (interface)
 	dbsFlush      *ir.Func    // (*DBStore).Flush
+	flushers      map[*types.Func]bool // DBStore methods that call the database's Flush themselves and write nothing
 	apply, revert *ir.Func    // (*DBStore).ApplyBlock / RevertBlock
 	bucketWrites  []*types.Func
 	writers       map[*types.Func]bool // DBStore methods that transitively write buckets
@@ -81,6 +82,13 @@ func getStoreRoles(p *ir.Prog) *storeRoles {
 		}
 	}
 	s.flushPoints[s.dbsFlush.Obj] = true
+	s.flushers = map[*types.Func]bool{}
+	for _, f := range s.methods {
+		if len(f.CallsTo(false, s.dbFlush)) > 0 && !s.writers[f.Obj] && f != s.apply && f != s.revert {
+			s.flushers[f.Obj] = true
+			s.flushPoints[f.Obj] = true
+		}
+	}
 	for round := 0; round < 4; round++ {
 		for _, f := range s.methods {
 			if f == s.apply || f == s.revert {
@@ -150,7 +158,7 @@ func c03r1(c *Ctx) {
 			case call.Fn == s.dbFlush.Origin():
 				c.Visit(1)
 				ob := c.Ob(top, "db-flush-owner", call.Pos())
-				ob.Check(top == s.dbsFlush || top == cacheFlush, nil, "the database's Flush is called at %s outside DBStore.Flush and the caching wrapper: a commit can happen in the middle of a block's writes", c.P.Pos(call.Pos()))
+				ob.Check(top == s.dbsFlush || top == cacheFlush || (top.Obj != nil && s.flushers[top.Obj]), nil, "the database's Flush is called at %s outside DBStore.Flush (or the non-writing store method that owns the commit) and the caching wrapper: a commit can happen in the middle of a block's writes", c.P.Pos(call.Pos()))
 			case s.flushPoints[call.Fn]:
 				c.Visit(1)
 				ob := c.Ob(top, "store-flush-at-block-boundary", call.Pos())
@@ -176,7 +184,7 @@ func c03r2(c *Ctx) {
 	s := getStoreRoles(c.P)
 	scan := []*ir.Func{s.apply, s.revert}
 	for _, m := range s.methods {
-		if m != s.apply && m != s.revert && m != s.dbsFlush && s.flushPoints[m.Obj] {
+		if m != s.apply && m != s.revert && m != s.dbsFlush && !s.flushers[m.Obj] && s.flushPoints[m.Obj] {
 			scan = append(scan, m) // wrappers around the commit point are held to the same rule
 		}
 	}
@@ -209,7 +217,7 @@ func c03r2(c *Ctx) {
 			}
 			// a flush point that itself writes before flushing (e.g. applyState with an embedded flush) splits the block too
 			for _, call := range f.NodeCalls(n) {
-				if s.flushPoints[call.Fn] && s.writers[call.Fn] && call.Fn != s.dbsFlush.Obj {
+				if s.flushPoints[call.Fn] && s.writers[call.Fn] && call.Fn != s.dbsFlush.Obj && !s.flushers[call.Fn] {
 					// later writes in this function?
 					for m := range g.Reach(st, nil) {
 						for _, c2 := range f.NodeCalls(m) {
